@@ -89,11 +89,12 @@ namespace vw
         bool objective = true;
         std::string objectiveKind = "length";  // length | integral | work | clearance | multi
         double costThreshold = -1;              // < 0: the objective's default threshold
+        int starts = 1;                         // 3: an invalid start state first (inside an obstacle cell), the usual one, and a second valid one
         std::string sampler = "lattice";        // lattice (oracle STATE choices) | default (library sampler) | snap (library sampler snapped to a grid: ties)
         std::string json() const
         {
             return "\"planner\":" + vf::jesc(planner) + ",\"map\":" + vf::jesc(map) + ",\"space\":" + vf::jesc(space) + ",\"goal\":" + vf::jesc(goal) + ",\"threshold\":" + vf::jnum(threshold) +
-                   ",\"range\":" + vf::jnum(range) + ",\"resolution\":" + vf::jnum(resolution) + ",\"budget\":" + std::to_string(budget) + ",\"objective\":" + (objective ? "true" : "false") + ",\"objectiveKind\":" + vf::jesc(objectiveKind) + ",\"costThreshold\":" + vf::jnum(costThreshold) + ",\"sampler\":" + vf::jesc(sampler);
+                   ",\"range\":" + vf::jnum(range) + ",\"resolution\":" + vf::jnum(resolution) + ",\"budget\":" + std::to_string(budget) + ",\"objective\":" + (objective ? "true" : "false") + ",\"objectiveKind\":" + vf::jesc(objectiveKind) + ",\"costThreshold\":" + vf::jnum(costThreshold) + ",\"sampler\":" + vf::jesc(sampler) + (starts != 1 ? ",\"starts\":" + std::to_string(starts) : std::string());
         }
         static Cfg fromJson(const vf::JV &v)
         {
@@ -113,6 +114,8 @@ namespace vw
                 c.costThreshold = v["costThreshold"].d();
             if (v.has("sampler"))
                 c.sampler = v["sampler"].s;
+            if (v.has("starts"))
+                c.starts = v["starts"].i();
             return c;
         }
     };
@@ -405,8 +408,35 @@ namespace vw
             ob::ScopedState<> s(space), g(space);
             setXY(space.get(), s.get(), map.sx + 0.263, map.sy + 0.257, 0.3);
             setXY(space.get(), g.get(), map.gx + 0.763, map.gy + 0.757, 1.9);
+            if (c.starts > 1)
+            {
+                // several start states, the first of them invalid: planners must skip it and may grow from either of the others
+                for (int yy = 0; yy < map.H() && starts.empty(); ++yy)
+                    for (int xx = 0; xx < map.W() && starts.empty(); ++xx)
+                        if (!map.free(xx, yy))
+                        {
+                            ob::ScopedState<> bad(space);
+                            setXY(space.get(), bad.get(), xx + 0.5, yy + 0.5, 0.7);
+                            starts.push_back(bad);
+                            pdef->addStartState(bad);
+                        }
+            }
             starts.push_back(s);
             pdef->addStartState(s);
+            if (c.starts > 1)
+            {
+                bool done = false;
+                for (int yy = map.H() - 1; yy >= 0 && !done; --yy)
+                    for (int xx = map.W() - 1; xx >= 0 && !done; --xx)
+                        if (map.free(xx, yy) && !(xx == map.sx && yy == map.sy) && !(xx == map.gx && yy == map.gy))
+                        {
+                            ob::ScopedState<> s2(space);
+                            setXY(space.get(), s2.get(), xx + 0.337, yy + 0.671, -2.1);
+                            starts.push_back(s2);
+                            pdef->addStartState(s2);
+                            done = true;
+                        }
+            }
             if (c.goal == "state")
                 pdef->setGoalState(g, c.threshold);
             else if (c.goal == "states")
